@@ -50,6 +50,8 @@ FOCUS = {
     # markup inside HTML attribute values / names (the tag token is raw text: placeholders must not survive into node.attrs)
     "attrs": ["<span", " title=", '"', "{{a}}", "<nowiki>q</nowiki>", "[x]", ">", "</span>", "x", "[[a|", "]]", " ", "<pre", "</pre>",
               '[[a|<span title="', "[http://x.y <b id="],
+    # inline HTML elements crossing link / call boundaries (an end tag force-closes what was opened inside the element)
+    "inline": ["<b>", "</b>", "[[", "]]", "{{", "}}", "|", "a", "''", "<span>", "</span>", "\n"],
     "urlchars": ["http://x.y", "https://", "//", "[", "]", " ", "a", ".", ",", "?", "=", "|", "<", "\n"],
 }
 
